@@ -185,7 +185,9 @@ type gen struct {
 
 func (g *gen) pick(label string, xs []string) string { return rapid.SampledFrom(xs).Draw(g.t, label) }
 func (g *gen) n(label string, lo, hi int) int        { return rapid.IntRange(lo, hi).Draw(g.t, label) }
-func (g *gen) chance(label string, outOf int) bool   { return rapid.IntRange(0, outOf-1).Draw(g.t, label) == outOf-1 }
+func (g *gen) chance(label string, outOf int) bool {
+	return rapid.IntRange(0, outOf-1).Draw(g.t, label) == outOf-1
+}
 
 var words = []string{"x", "hello", "world", "42", "a.b", "é", "naïve", "日本", "ok;", "#1", "50%", "a/b", "(c)", "[d]", "=", "--", "e=mc2"}
 
@@ -269,11 +271,11 @@ var exprs = []string{
 }
 
 var bindVals = map[string][]string{
-	":class": {"{a: x > 1}", "{'is-on': on, \"b\": !off}", "[a, b]", "x ? 'a' : 'b'", `{ "active": i == cur, 'big': n > 10 }`, "cls"},
-	":style": {"{color: c}", "{ 'font-size': size + 'px', width: w > 0 ? w : 1 }", `"color: " + c`},
-	":href":  {"'/p/' + id", "url", `"/u?id=" + id + "&tab=" + tab`, "'/s?q=' + q + '&lt=' + n"},
-	":title": {`"say " + n`, "t", `'it' + "'s"`, "a < b ? 'lt' : 'ge'"},
-	":key":   {"item.id", "i"},
+	":class":    {"{a: x > 1}", "{'is-on': on, \"b\": !off}", "[a, b]", "x ? 'a' : 'b'", `{ "active": i == cur, 'big': n > 10 }`, "cls"},
+	":style":    {"{color: c}", "{ 'font-size': size + 'px', width: w > 0 ? w : 1 }", `"color: " + c`},
+	":href":     {"'/p/' + id", "url", `"/u?id=" + id + "&tab=" + tab`, "'/s?q=' + q + '&lt=' + n"},
+	":title":    {`"say " + n`, "t", `'it' + "'s"`, "a < b ? 'lt' : 'ge'"},
+	":key":      {"item.id", "i"},
 	":disabled": {"!ok", "n < 1"},
 }
 
